@@ -99,6 +99,7 @@ func safeRun(s Suite, c Case) (res []string) {
 		}
 	}()
 	_, kv := parseHeader(c.Header)
+	defer stopTimers()
 	res = s.Run(kv, c.Ops)
 	for len(res) < len(c.Ops) {
 		res = append(res, "missing")
@@ -208,4 +209,18 @@ func main() {
 
 // sleepingTimer is a REAL *time.Timer that will not fire during the run: the harness fires the recorded callbacks by
 // hand, but code that looks at the timer it was handed (non-nil? Stop()) must see a real one.
-func sleepingTimer() *time.Timer { return time.AfterFunc(10000*time.Hour, func() {}) }
+func sleepingTimer() *time.Timer {
+	t := time.AfterFunc(10000*time.Hour, func() {})
+	liveTimers = append(liveTimers, t)
+	return t
+}
+
+var liveTimers []*time.Timer
+
+// stopTimers releases the timers handed out during one case (they would otherwise stay in the runtime's heap).
+func stopTimers() {
+	for _, t := range liveTimers {
+		t.Stop()
+	}
+	liveTimers = liveTimers[:0]
+}
